@@ -197,7 +197,7 @@ package samlsp
 //@    (opts.SignRequest && isRSAKey(opts.Key) ==> result.SignatureMethod == dsig.RSASHA1SignatureMethod) &&
 //@    (opts.SignRequest && isECDSAKey(opts.Key) ==> result.SignatureMethod == dsig.ECDSASHA256SignatureMethod) &&
 //@    result.Key == opts.Key && result.Certificate == opts.Certificate
-//@ ensures[C17,C04] passthrough: result.AllowIDPInitiated == opts.AllowIDPInitiated && result.IDPMetadata == opts.IDPMetadata &&
+//@ ensures[C01,C02,C03,C04,C12,C13,C17,C18] passthrough: result.AllowIDPInitiated == opts.AllowIDPInitiated && result.IDPMetadata == opts.IDPMetadata &&
 //@    result.EntityID == opts.EntityID && (opts.DefaultRedirectURI != "" ==> result.DefaultRedirectURI == opts.DefaultRedirectURI) &&
 //@    (opts.DefaultRedirectURI == "" ==> result.DefaultRedirectURI == "/")
 //@ ensures[C12] force_authn: (result.ForceAuthn != nil) == opts.ForceAuthn && result.RequestedAuthnContext == opts.RequestedAuthnContext
